@@ -49,42 +49,42 @@ def binOperands : T → Option (T × T)
 
 /-! ## expression-level gas detectors (C05) -/
 
-def addressBalance (su : T) : List Loc :=
-  (extract [.MemberAccess] su).filterMap fun n =>
-    match n with
-    | .node .Expression_MemberAccess [loc, .node .Expression_FunctionCall [_, callee, _], id] =>
-      if isTypeExpr .Type_Address callee && identName id = some "balance" then Loc.ofT loc else none
-    | _ => none
+def addressBalanceAt : T → Option Loc
+  | .node .Expression_MemberAccess [loc, .node .Expression_FunctionCall [_, callee, _], id] =>
+    if isTypeExpr .Type_Address callee && identName id = some "balance" then Loc.ofT loc else none
+  | _ => none
+
+def addressBalance (su : T) : List Loc := (extract [.MemberAccess] su).filterMap addressBalanceAt
 
 def checkAddressZero : T → Bool
   | .node .Expression_FunctionCall [_, callee, args] =>
     isTypeExpr .Type_Address callee &&
       match (vecItems args).head? with
-      | some (.node .Expression_NumberLiteral [_, .str v, _]) => v = "0"
+      | some (.node .Expression_NumberLiteral [_, .str v, .str _]) => v = "0"
       | _ => false
   | _ => false
 
-def addressZero (su : T) : List Loc :=
-  (extract [.Equal, .NotEqual] su).filterMap fun n =>
-    match n with
-    | .node .Expression_NotEqual [loc, l, r] => if checkAddressZero l || checkAddressZero r then Loc.ofT loc else none
-    | .node .Expression_Equal [loc, l, r] => if checkAddressZero l || checkAddressZero r then Loc.ofT loc else none
-    | _ => none
+def addressZeroAt : T → Option Loc
+  | .node .Expression_NotEqual [loc, l, r] => if checkAddressZero l || checkAddressZero r then Loc.ofT loc else none
+  | .node .Expression_Equal [loc, l, r] => if checkAddressZero l || checkAddressZero r then Loc.ofT loc else none
+  | _ => none
+
+def addressZero (su : T) : List Loc := (extract [.Equal, .NotEqual] su).filterMap addressZeroAt
 
 def isBoolLit : T → Bool
   | .node .Expression_BoolLiteral _ => true
   | _ => false
 
-def boolEqualsBool (su : T) : List Loc :=
-  (extract [.Equal, .NotEqual] su).filterMap fun n =>
-    match n with
-    | .node .Expression_NotEqual [loc, l, r] => if isBoolLit l || isBoolLit r then Loc.ofT loc else none
-    | .node .Expression_Equal [loc, l, r] => if isBoolLit l || isBoolLit r then Loc.ofT loc else none
-    | _ => none
+def boolEqualsBoolAt : T → Option Loc
+  | .node .Expression_NotEqual [loc, l, r] => if isBoolLit l || isBoolLit r then Loc.ofT loc else none
+  | .node .Expression_Equal [loc, l, r] => if isBoolLit l || isBoolLit r then Loc.ofT loc else none
+  | _ => none
+
+def boolEqualsBool (su : T) : List Loc := (extract [.Equal, .NotEqual] su).filterMap boolEqualsBoolAt
 
 /-- `ident[numlit]` ↦ (ident, digits) -/
 def subscriptOfVarLit : T → Option (String × String)
-  | .node .Expression_ArraySubscript [_, base, .node .Some [.node .Expression_NumberLiteral [_, .str n, _]]] =>
+  | .node .Expression_ArraySubscript [_, base, .node .Some [.node .Expression_NumberLiteral [_, .str n, .str _]]] =>
     (varName base).map (fun a => (a, n))
   | _ => none
 
@@ -96,69 +96,76 @@ def arithTags : List Tag :=
   [.Expression_Add, .Expression_Subtract, .Expression_Divide, .Expression_Multiply, .Expression_Modulo,
    .Expression_ShiftLeft, .Expression_ShiftRight, .Expression_BitwiseAnd, .Expression_BitwiseOr, .Expression_BitwiseXor]
 
-def assignUpdateArray (su : T) : List Loc :=
-  (extract [.Assign] su).filterMap fun n =>
-    match n with
-    | .node .Expression_Assign [loc, lhs, .node op [_, a, b]] =>
-      match subscriptOfVarLit lhs with
-      | some target =>
-        if arithTags.contains op then
-          match isSubscript a with
-          | some baseA =>
-            match varName baseA with
-            | some _ => if subscriptOfVarLit a = some target then Loc.ofT loc else none
-            | none => if subscriptOfVarLit b = some target then Loc.ofT loc else none
-          | none => none
-        else none
-      | none => none
-    | _ => none
+def assignUpdateArrayAt : T → Option Loc
+  | .node .Expression_Assign [loc, lhs, .node op [_, a, b]] =>
+    match subscriptOfVarLit lhs with
+    | some target =>
+      if arithTags.contains op then
+        match isSubscript a with
+        | some baseA =>
+          match varName baseA with
+          | some _ => if subscriptOfVarLit a = some target then Loc.ofT loc else none
+          | none => if subscriptOfVarLit b = some target then Loc.ofT loc else none
+        | none => none
+      else none
+    | none => none
+  | _ => none
 
-def cacheArrayLength (su : T) : List Loc :=
-  (extract [.For] su).flatMap fun n =>
-    match n with
-    | .node .Statement_For [_, _, .node .Some [cond], _, _] =>
-      (extract [.MemberAccess] cond).filterMap fun m =>
-        match m with
-        | .node .Expression_MemberAccess [loc, _, id] => if identName id = some "length" then Loc.ofT loc else none
-        | _ => none
-    | _ => []
+def assignUpdateArray (su : T) : List Loc := (extract [.Assign] su).filterMap assignUpdateArrayAt
+
+def lengthAccessAt : T → Option Loc
+  | .node .Expression_MemberAccess [loc, _, id] => if identName id = some "length" then Loc.ofT loc else none
+  | _ => none
+
+/-- the condition expression of a `for` statement -/
+def forCondition : T → Option T
+  | .node .Statement_For [_, _, .node .Some [cond], _, _] => some cond
+  | _ => none
+
+def cacheArrayLengthAt (n : T) : List Loc :=
+  match forCondition n with
+  | some cond => (extract [.MemberAccess] cond).filterMap lengthAccessAt
+  | none => []
+
+def cacheArrayLength (su : T) : List Loc := (extract [.For] su).flatMap cacheArrayLengthAt
 
 def incDecTargets : List Target := [.PreIncrement, .PreDecrement, .PostIncrement, .PostDecrement]
 
-def incDecLocs (targets : List Target) (root : T) : List Loc :=
-  (extract targets root).filterMap fun n =>
-    match n with
-    | .node .Expression_PreIncrement (loc :: _) => Loc.ofT loc
-    | .node .Expression_PreDecrement (loc :: _) => Loc.ofT loc
-    | .node .Expression_PostIncrement (loc :: _) => Loc.ofT loc
-    | .node .Expression_PostDecrement (loc :: _) => Loc.ofT loc
-    | _ => none
+def incDecLocAt : T → Option Loc
+  | .node .Expression_PreIncrement (loc :: _) => Loc.ofT loc
+  | .node .Expression_PreDecrement (loc :: _) => Loc.ofT loc
+  | .node .Expression_PostIncrement (loc :: _) => Loc.ofT loc
+  | .node .Expression_PostDecrement (loc :: _) => Loc.ofT loc
+  | _ => none
+
+def incDecLocs (targets : List Target) (root : T) : List Loc := (extract targets root).filterMap incDecLocAt
+
+/-- the statements of an `unchecked { .. }` block -/
+def uncheckedStatements : T → List T
+  | .node .Statement_Block [_, .bool true, stmts] => vecItems stmts
+  | _ => []
 
 def uncheckedPrefixLocs (su : T) : List Loc :=
-  (extract [.Block] su).flatMap fun n =>
-    match n with
-    | .node .Statement_Block [_, .bool true, stmts] =>
-      (vecItems stmts).flatMap (incDecLocs [.PreIncrement, .PreDecrement])
-    | _ => []
+  (extract [.Block] su).flatMap fun n => (uncheckedStatements n).flatMap (incDecLocs [.PreIncrement, .PreDecrement])
 
 def incrementDecrement (su : T) : List Loc :=
   let unchecked := uncheckedPrefixLocs su
   (incDecLocs incDecTargets su).filter (fun l => !unchecked.contains l)
 
-def multipleRequire (su : T) : List Loc :=
-  (extract [.FunctionCall] su).filterMap fun n =>
-    match n with
-    | .node .Expression_FunctionCall [loc, callee, args] =>
-      if varName callee = some "require" && (vecItems args).any (fun a => a.tag? = some .Expression_And)
-      then Loc.ofT loc else none
-    | _ => none
+def multipleRequireAt : T → Option Loc
+  | .node .Expression_FunctionCall [loc, callee, args] =>
+    if varName callee = some "require" && (vecItems args).any (fun a => a.tag? = some .Expression_And)
+    then Loc.ofT loc else none
+  | _ => none
 
-def optimalComparison (su : T) : List Loc :=
-  (extract [.MoreEqual, .LessEqual] su).filterMap fun n =>
-    match n with
-    | .node .Expression_MoreEqual (loc :: _) => Loc.ofT loc
-    | .node .Expression_LessEqual (loc :: _) => Loc.ofT loc
-    | _ => none
+def multipleRequire (su : T) : List Loc := (extract [.FunctionCall] su).filterMap multipleRequireAt
+
+def optimalComparisonAt : T → Option Loc
+  | .node .Expression_MoreEqual (loc :: _) => Loc.ofT loc
+  | .node .Expression_LessEqual (loc :: _) => Loc.ofT loc
+  | _ => none
+
+def optimalComparison (su : T) : List Loc := (extract [.MoreEqual, .LessEqual] su).filterMap optimalComparisonAt
 
 /-- `n` is a power of two (`n ≥ 1`): halve while even, end at one -/
 def isPow2Fuel : Nat → Nat → Bool
@@ -173,28 +180,28 @@ def isPow2Literal : T → Bool
     e.isEmpty && !v.isEmpty && v.toList.all isDigitC && isPow2 (digitsVal v.toList 0)
   | _ => false
 
-def shiftMath (su : T) : List Loc :=
-  (extract [.Multiply, .Divide] su).filterMap fun n =>
-    match n with
-    | .node .Expression_Multiply [loc, l, r] => if isPow2Literal l || isPow2Literal r then Loc.ofT loc else none
-    | .node .Expression_Divide [loc, l, r] => if isPow2Literal l || isPow2Literal r then Loc.ofT loc else none
-    | _ => none
+def shiftMathAt : T → Option Loc
+  | .node .Expression_Multiply [loc, l, r] => if isPow2Literal l || isPow2Literal r then Loc.ofT loc else none
+  | .node .Expression_Divide [loc, l, r] => if isPow2Literal l || isPow2Literal r then Loc.ofT loc else none
+  | _ => none
 
-def solidityKeccak256 (su : T) : List Loc :=
-  (extract [.FunctionCall] su).filterMap fun n =>
-    match n with
-    | .node .Expression_FunctionCall [_, .node .Expression_Variable [.node .S_Identifier [loc, .str name]], _] =>
-      if name = "keccak256" then Loc.ofT loc else none
-    | _ => none
+def shiftMath (su : T) : List Loc := (extract [.Multiply, .Divide] su).filterMap shiftMathAt
 
-def solidityMath (su : T) : List Loc :=
-  (extract [.Add, .Subtract, .Multiply, .Divide] su).filterMap fun n =>
-    match n with
-    | .node .Expression_Add (loc :: _) => Loc.ofT loc
-    | .node .Expression_Subtract (loc :: _) => Loc.ofT loc
-    | .node .Expression_Multiply (loc :: _) => Loc.ofT loc
-    | .node .Expression_Divide (loc :: _) => Loc.ofT loc
-    | _ => none
+def keccakAt : T → Option Loc
+  | .node .Expression_FunctionCall [_, .node .Expression_Variable [.node .S_Identifier [loc, .str name]], _] =>
+    if name = "keccak256" then Loc.ofT loc else none
+  | _ => none
+
+def solidityKeccak256 (su : T) : List Loc := (extract [.FunctionCall] su).filterMap keccakAt
+
+def solidityMathAt : T → Option Loc
+  | .node .Expression_Add (loc :: _) => Loc.ofT loc
+  | .node .Expression_Subtract (loc :: _) => Loc.ofT loc
+  | .node .Expression_Multiply (loc :: _) => Loc.ofT loc
+  | .node .Expression_Divide (loc :: _) => Loc.ofT loc
+  | _ => none
+
+def solidityMath (su : T) : List Loc := (extract [.Add, .Subtract, .Multiply, .Divide] su).filterMap solidityMathAt
 
 /-! ## mutability (C08) -/
 
@@ -221,15 +228,14 @@ def constantVariables (su : T) : List Loc :=
   let remaining := (writtenNames su).foldl assocRemove table
   remaining.filterMap (fun e => Loc.ofT e.2.2)
 
-def sstore (su : T) : List Loc :=
-  let table := storageVarTable true true su
-  (extract [.Assign] su).filterMap fun n =>
-    match n with
-    | .node .Expression_Assign [loc, lhs, _] =>
-      match varName lhs with
-      | some v => if assocHas table v then Loc.ofT loc else none
-      | none => none
-    | _ => none
+def sstoreAt (table : List (String × List T × T)) : T → Option Loc
+  | .node .Expression_Assign [loc, lhs, _] =>
+    match varName lhs with
+    | some v => if assocHas table v then Loc.ofT loc else none
+    | none => none
+  | _ => none
+
+def sstore (su : T) : List Loc := (extract [.Assign] su).filterMap (sstoreAt (storageVarTable true true su))
 
 def isNonValueType : T → Bool
   | .node .Expression_StringLiteral _ => true
@@ -477,14 +483,14 @@ def usingSafeMath (su : T) : Bool :=
       (vecItems ids).any (fun i => identName i = some "SafeMath")
     | _ => false
 
-def safeMathCalls (su : T) : List Loc :=
-  (extract [.FunctionCall] su).filterMap fun n =>
-    match n with
-    | .node .Expression_FunctionCall [_, .node .Expression_MemberAccess [loc, _, id], _] =>
-      match identName id with
-      | some name => if name = "add" || name = "sub" || name = "mul" || name = "div" then Loc.ofT loc else none
-      | none => none
-    | _ => none
+def safeMathCallAt : T → Option Loc
+  | .node .Expression_FunctionCall [_, .node .Expression_MemberAccess [loc, _, id], _] =>
+    match identName id with
+    | some name => if name = "add" || name = "sub" || name = "mul" || name = "div" then Loc.ofT loc else none
+    | none => none
+  | _ => none
+
+def safeMathCalls (su : T) : List Loc := (extract [.FunctionCall] su).filterMap safeMathCallAt
 
 def safeMath (pre080 : Bool) (su : T) : List Loc :=
   match versionOf su with
@@ -503,15 +509,22 @@ def requireStringPieces : T → Option (List T)
     else none
   | _ => none
 
+def stringErrorAt (n : T) : Option Loc :=
+  match requireStringPieces n with
+  | some (.node .S_StringLiteral (loc :: _) :: _) => Loc.ofT loc
+  | _ => none
+
+def shortRevertAt (n : T) : Option Loc :=
+  match requireStringPieces n with
+  | some (.node .S_StringLiteral [loc, _, .str s] :: _) => if s.utf8ByteSize ≥ 32 then Loc.ofT loc else none
+  | _ => none
+
 def stringErrors (su : T) : List Loc :=
   match versionOf su with
   | none => []
   | some v =>
     if !verLt v (0, 8, 4) then
-      (extract [.FunctionCall] su).filterMap fun n =>
-        match requireStringPieces n with
-        | some (.node .S_StringLiteral (loc :: _) :: _) => Loc.ofT loc
-        | _ => none
+      (extract [.FunctionCall] su).filterMap stringErrorAt
     else []
 
 def shortRevertString (su : T) : List Loc :=
@@ -519,29 +532,26 @@ def shortRevertString (su : T) : List Loc :=
   | none => []
   | some v =>
     if verLt v (0, 8, 4) then
-      (extract [.FunctionCall] su).filterMap fun n =>
-        match requireStringPieces n with
-        | some (.node .S_StringLiteral [loc, _, .str s] :: _) => if s.utf8ByteSize ≥ 32 then Loc.ofT loc else none
-        | _ => none
+      (extract [.FunctionCall] su).filterMap shortRevertAt
     else []
 
 /-! ## vulnerability detectors (C07) -/
 
-def unsafeErc20Operation (su : T) : List Loc :=
-  (extract [.MemberAccess] su).filterMap fun n =>
-    match n with
-    | .node .Expression_MemberAccess [loc, _, id] =>
-      match identName id with
-      | some name => if name = "transfer" || name = "transferFrom" || name = "approve" then Loc.ofT loc else none
-      | none => none
-    | _ => none
+def erc20At : T → Option Loc
+  | .node .Expression_MemberAccess [loc, _, id] =>
+    match identName id with
+    | some name => if name = "transfer" || name = "transferFrom" || name = "approve" then Loc.ofT loc else none
+    | none => none
+  | _ => none
 
-def floatingPragma (su : T) : List Loc :=
-  (extract [.PragmaDirective] su).filterMap fun n =>
-    match n with
-    | .node .SourceUnitPart_PragmaDirective [loc, _, .node .S_StringLiteral [_, _, .str v]] =>
-      if v.toList.contains '^' then Loc.ofT loc else none
-    | _ => none
+def unsafeErc20Operation (su : T) : List Loc := (extract [.MemberAccess] su).filterMap erc20At
+
+def floatingPragmaAt : T → Option Loc
+  | .node .SourceUnitPart_PragmaDirective [loc, _, .node .S_StringLiteral [_, _, .str v]] =>
+    if v.toList.contains '^' then Loc.ofT loc else none
+  | _ => none
+
+def floatingPragma (su : T) : List Loc := (extract [.PragmaDirective] su).filterMap floatingPragmaAt
 
 /-- follow left operands of `*` and the insides of parentheses down to a `/` -/
 def reachesDivide : T → Bool
@@ -561,12 +571,12 @@ def reachesMultiply : T → Bool
   | .node tag [_, l, _] => if chainTags.contains tag then reachesMultiply l else false
   | _ => false
 
-def divideBeforeMultiply (su : T) : List Loc :=
-  (extract [.Multiply, .AssignDivide] su).filterMap fun n =>
-    match n with
-    | .node .Expression_Multiply [loc, l, _] => if reachesDivide l then Loc.ofT loc else none
-    | .node .Expression_AssignDivide [loc, _, r] => if reachesMultiply r then Loc.ofT loc else none
-    | _ => none
+def divideBeforeMultiplyAt : T → Option Loc
+  | .node .Expression_Multiply [loc, l, _] => if reachesDivide l then Loc.ofT loc else none
+  | .node .Expression_AssignDivide [loc, _, r] => if reachesMultiply r then Loc.ofT loc else none
+  | _ => none
+
+def divideBeforeMultiply (su : T) : List Loc := (extract [.Multiply, .AssignDivide] su).filterMap divideBeforeMultiplyAt
 
 def isSelfdestructCallee (callee : T) : Bool :=
   varName callee = some "selfdestruct" || varName callee = some "suicide"
